@@ -11,6 +11,7 @@ if ! tools/confirm_seed.sh "$DEL" "$W" "$OUT" > "$OUT/confirm.stdout" 2>&1; then
   exit 1
 fi
 cp "$DEL/$W.patch.diff" "$OUT/patch.diff"
+[ -s "$OUT/patch.rebased.diff" ] && cp "$OUT/patch.rebased.diff" "$OUT/patch.diff" && cp "$DEL/$W.patch.diff" "$OUT/patch.original.diff"
 cp "$DEL/${W}_demo_test.go" "$OUT/demo_test.go"
 python3 - "$DEL/meta.json" "$W" "$P" "$OUT" <<'PY'
 import json,sys
